@@ -205,9 +205,22 @@ func (s String) with(at int, char rune) Set {
 			holes:  s.holes,
 		}
 	}
-	// TODO: Support adding holes and doubling up chars, removing the need to
-	// call newGenericSetFromSet here.
-	return newGenericSetFromSet(s).With(NewStringCharTuple(at, char))
+	if 0 <= i && i < len(s.s) && s.s[i] >= 0 {
+		// TODO: Support doubling up chars, removing the need to call
+		// newGenericSetFromSet here.
+		return newGenericSetFromSet(s).With(NewStringCharTuple(at, char))
+	}
+	// Filling a hole or adding beyond either end: rebuild as a sparse String.
+	b := NewSetBuilder()
+	for e := s.Enumerator(); e.MoveNext(); {
+		b.Add(e.Current())
+	}
+	b.Add(NewStringCharTuple(at, char))
+	result, err := b.Finish()
+	if err != nil {
+		panic(err)
+	}
+	return result
 }
 
 // With returns the original String with given value added. Iff the value was
